@@ -1,5 +1,192 @@
-import SnootyVerif.Model.Subst
+import SnootyVerif.Proofs.Subst
+
+/-!
+# C07 — Substitutions and source constants resolve by the documented scoping rules
+
+Property theorems only (model `Model/Subst.lean`, lemmas `Proofs/Subst.lean`).
+-/
 namespace SnootyVerif.C07
 open SnootyVerif.Subst
-theorem placeholder : True := trivial
+
+/-! ### scoping order (decision logic of `_search`) -/
+
+/-- 1. a replacement on the innermost enclosing include wins over everything else -/
+theorem replacement_first (top defs proj : Table) (name : String) (b : Body)
+    (h : tget top name = some b) : lookupOrder (some top) defs proj name = some b := by
+  simp [lookupOrder, h]
+
+/-- 2. otherwise a (non-empty) definition on the page wins over snooty.toml -/
+theorem page_before_project (top : Option Table) (defs proj : Table) (name : String) (b : Item) (bs : Body)
+    (ht : top.bind (tget · name) = none) (hd : tget defs name = some (b :: bs)) :
+    lookupOrder top defs proj name = some (b :: bs) := by
+  simp [lookupOrder, ht, hd]
+
+/-- 3. otherwise the project-wide substitution -/
+theorem project_fallback (top : Option Table) (defs proj : Table) (name : String)
+    (ht : top.bind (tget · name) = none) (hd : tget defs name = none ∨ tget defs name = some []) :
+    lookupOrder top defs proj name = tget proj name := by
+  rcases hd with hd | hd <;> simp [lookupOrder, ht, hd]
+
+/-- only the INNERMOST include's table is consulted (an outer include's replacement does not reach
+into a nested include) -/
+theorem only_innermost_table (inner outer defs proj : Table) (name : String)
+    (hi : tget inner name = none) :
+    lookupOrder ((inner :: [outer]).head?) defs proj name = lookupOrder none defs proj name := by
+  simp [lookupOrder, hi]
+
+/-- the latest definition of a name on the page replaces the earlier one; other names are untouched -/
+theorem latest_definition_wins (defs : Table) (name : String) (b1 b2 : Body) :
+    tget (tset (tset defs name b1) name b2) name = some b2 := tget_tset_same _ _ _
+
+theorem definition_does_not_touch_others (defs : Table) (name other : String) (b : Body) (h : name ≠ other) :
+    tget (tset defs name b) other = tget defs other := tget_tset_other _ _ _ _ h
+
+/-! ### page level: definitions, uses, deferral, diagnostics -/
+
+/-- a definition with a plain-text body is recorded, and leaves the rest of the handler state alone -/
+theorem defn_recorded (proj : Table) (fuel : Nat) (st : St) (name : String) (body : Body) (evs : List Ev)
+    (acc : Uses) (hb : allTxt body = true) (hs : st.seen = none) :
+    runEvents proj fuel st (.defn name body :: evs) acc
+      = runEvents proj fuel { st with defs := tset st.defs name body } evs acc := by
+  simp only [runEvents]
+  rw [walk_txt _ _ _ _ hb]
+  simp only [tget_tset_same]
+  have : tset (tset st.defs name body) name body = tset st.defs name body := by
+    induction st.defs with
+    | nil => simp [tset]
+    | cons p t ih =>
+      simp only [tset]
+      by_cases h : (p.1 == name) = true
+      · simp [h, tset]
+      · have h' : (p.1 == name) = false := by simpa using h
+        simp [h', tset, ih]
+  rw [this]
+  cases st
+  simp_all
+
+/-- a use outside any definition, whose name resolves (by `lookupOrder`) to a plain-text body, holds a
+copy of exactly that body, produces no diagnostic and leaves the handler state unchanged -/
+theorem use_holds_selected_definition (proj : Table) (fuel : Nat) (st : St) (name : String) (line : Nat)
+    (body : Body) (evs : List Ev) (acc : Uses)
+    (hs : st.seen = none) (ha : st.active.contains name = false)
+    (hl : lookupOrder st.stack.head? st.defs proj name = some body) (hb : allTxt body = true) :
+    runEvents proj (fuel + 1) st (.use line name :: evs) acc
+      = runEvents proj (fuel + 1) st evs (acc ++ [(line, .ref name line false body)]) := by
+  simp only [runEvents, walkItems, hs, ha, hl]
+  simp only [Option.isNone_none, Bool.true_and, Bool.false_eq_true, if_false, Option.map_none]
+  rw [walk_txt _ _ _ _ hb]
+  simp only [walkItems, List.drop_succ_cons, List.drop_zero, Option.isNone_some]
+  cases st
+  simp_all
+
+/-- a use whose name resolves nowhere at that point is queued; nothing else changes -/
+theorem use_deferred (proj : Table) (fuel : Nat) (st : St) (name : String) (line : Nat)
+    (evs : List Ev) (acc : Uses)
+    (hs : st.seen = none) (ha : st.active.contains name = false)
+    (hl : lookupOrder st.stack.head? st.defs proj name = none) :
+    runEvents proj (fuel + 1) st (.use line name :: evs) acc
+      = runEvents proj (fuel + 1) { st with pending := st.pending ++ [(name, st.file, line)] } evs
+          (acc ++ [(line, .ref name line true [])]) := by
+  simp only [runEvents, walkItems, hs, ha, hl]
+  simp only [Option.isNone_none, Bool.true_and, Bool.false_eq_true, if_false, Option.map_none]
+  cases fuel <;> simp [walkItems] <;> (cases st; simp_all)
+
+/-- at the end of the page a queued reference shows the definition that appears LATER on the page … -/
+theorem deferred_gets_later_definition (defs : Table) (fuel : Nat) (name : String) (line : Nat) (body : Body)
+    (hd : tget defs name = some body) (hb : allTxt body = true) :
+    finalText defs (fuel + 1) (.ref name line true []) = String.join (body.map (finalText defs fuel)) := by
+  simp [finalText, hd, List.attach_map_subtype_val]
+
+/-- … and a name defined nowhere yields exactly one "could not be replaced" diagnostic, filed under the
+file and line of the reference -/
+theorem undefined_reported (st : St) (name file : String) (line : Nat)
+    (hp : st.pending = [(name, file, line)]) (hd : tget st.defs name = none) :
+    pageEndDiags st = st.diags ++ [⟨file, .unresolved, line⟩] := by
+  simp [pageEndDiags, hp, hd]
+
+/-- a queued name that IS defined by the end of the page yields no diagnostic -/
+theorem defined_later_not_reported (st : St) (name file : String) (line : Nat) (b : Body)
+    (hp : st.pending = [(name, file, line)]) (hd : tget st.defs name = some b) :
+    pageEndDiags st = st.diags := by
+  simp [pageEndDiags, hp, hd]
+
+/-! ### self- and mutually-referential definitions terminate and are reported (static environment) -/
+
+/-- expansion against project-wide substitutions terminates for EVERY table (cycles of any length):
+the fuel `#names + 2` is never exhausted -/
+theorem static_terminates (env : Table) (name : String) (line : Nat) : (useStatic env name line).isSome := by
+  unfold useStatic
+  apply expandStatic_isSome
+  omega
+
+/-- a reference to a name that is being expanded is reported as circular and left empty -/
+theorem static_cycle_reported (env : Table) (rec : SRec) (path : List String) (name : String) (line : Nat)
+    (pend : Bool) (cs : List Item) (h : path.contains name = true) :
+    expandLevel env rec path [.ref name line pend cs]
+      = some ([.ref name line false []], [.circular name line]) := by
+  simp only [expandLevel, h, if_true]
+
+/-- an undefined name is reported as unresolved -/
+theorem static_undefined_reported (env : Table) (rec : SRec) (path : List String) (name : String) (line : Nat)
+    (pend : Bool) (cs : List Item) (h : path.contains name = false) (hl : tget env name = none) :
+    expandLevel env rec path [.ref name line pend cs]
+      = some ([.ref name line true []], [.unresolved name line]) := by
+  simp only [expandLevel, h, hl, Bool.false_eq_true, if_false]
+
+/-- before the fix (no path guard) `a = "x |a|"` exhausted every fuel: RecursionError -/
+theorem staticOld_diverges (fuel : Nat) :
+    (∀ path l, expandStaticOld [("a", [.txt "x", .ref "a" 0 false []])] fuel path [.ref "a" l false []] = none) ∧
+    (∀ path, expandStaticOld [("a", [.txt "x", .ref "a" 0 false []])] fuel path [.txt "x", .ref "a" 0 false []] = none) := by
+  induction fuel with
+  | zero => exact ⟨fun _ _ => rfl, fun _ => rfl⟩
+  | succ f ih =>
+    constructor
+    · intro path l
+      simp only [expandStaticOld, expandLevel, tget]
+      simp [ih.2]
+    · intro path
+      simp only [expandStaticOld, expandLevel, tget]
+      simp [ih.2]
+
+/-- non-vacuity: a 2-cycle in snooty.toml, used once -/
+example : (useStatic [("a", [.txt "x", .ref "b" 0 false []]), ("b", [.ref "a" 0 false [], .txt "y"])] "a" 7).map (·.2)
+    = some [.circular "a" 0] := by
+  simp [useStatic, sroom, expandStatic, expandLevel, tget]
+
+/-! ### `{+constant+}` substitution -/
+
+/-- substitution never changes the number of lines (so it shifts no later line), provided no constant
+value contains a newline; `\w` must not match a newline (checked on the running Python) -/
+theorem constants_line_preserving (isWord : Char → Bool) (hnl : isWord '\n' = false)
+    (consts : List (List Char × List Char)) (hc : ∀ p ∈ consts, nlCount p.2 = 0) (s : List Char) (line : Nat) :
+    nlCount (substConsts isWord consts (s.length + 1) line s).1 = nlCount s :=
+  substConsts_nl isWord hnl consts hc _ _ _ (by omega)
+
+/-- a multi-line constant value DOES shift lines (outside the property's input space; recorded) -/
+theorem constants_multiline_shifts :
+    nlCount (substConsts (fun c => c.isAlphanum) [(['a'], ['x', '\n', 'y'])] 10 0 ['{', '+', 'a', '+', '}']).1 = 1 := by
+  decide
+
+/-- an undeclared constant becomes U+200B and is reported at the zero-based line of its placeholder -/
+theorem constants_unknown_reported (isWord : Char → Bool) (hplus : isWord '+' = false)
+    (consts : List (List Char × List Char)) (name post : List Char) (line fuel : Nat)
+    (hne : name ≠ []) (hname : ∀ c ∈ name, isVarChar isWord c = true)
+    (hunk : consts.find? (·.1 == name) = none) :
+    substConsts isWord consts (fuel + 1) line ('{' :: '+' :: (name ++ '+' :: '}' :: post))
+      = ('​' :: (substConsts isWord consts fuel line post).1,
+         (name, line) :: (substConsts isWord consts fuel line post).2) := by
+  simp only [substConsts, matchVar_placeholder isWord hplus name post hne hname, hunk]
+
+/-- text before a placeholder that contains no '{' is copied unchanged and advances the line count -/
+theorem constants_prefix_copied (isWord : Char → Bool) (consts : List (List Char × List Char))
+    (c : Char) (t : List Char) (line fuel : Nat) (h : c ≠ '{') :
+    substConsts isWord consts (fuel + 1) line (c :: t)
+      = (c :: (substConsts isWord consts fuel (if c == '\n' then line + 1 else line) t).1,
+         (substConsts isWord consts fuel (if c == '\n' then line + 1 else line) t).2) := by
+  simp only [substConsts, matchVar_none_of_head isWord c t h]
+
+/-- non-vacuity: unknown constant on the third line -/
+example : (substConsts (fun c => c.isAlphanum) [] 20 0 "a\n\n{+zz+}b".toList).2 = [(['z', 'z'], 2)] := by
+  decide
+
 end SnootyVerif.C07
